@@ -24,6 +24,8 @@ extern long vf_alloc_serial;       /* number of vf_malloc calls so far */
 extern long vf_n_free_unknown;     /* frees of pointers the ledger does not own */
 extern long vf_n_free_null;
 extern char vf_last_bad_free[256];
+extern long vf_n_overrun; extern char vf_last_overrun[256];   /* writes past the end of a ledger block (red zones) */
+long vf_check_redzones(void);
 extern int  vf_abort_armed;        /* if set, vf_abort longjmps to vf_abort_jmp */
 extern jmp_buf vf_abort_jmp;
 extern char vf_abort_msg[300];
